@@ -152,6 +152,87 @@ theorem c13_lazy_sync_only_when_empty (h : List (Op Text)) :
   obtain ⟨i, _⟩ := rel_run h
   exact ⟨i.lazy, prepareSalsaProject_of_inv i⟩
 
+/-! ### One level up: `Project` (layer note of the design; reported, not part of the claim)
+
+At the `Project` layer files are identified by *keys*; `SourceRegistry::ensure_file_id` hands out
+file ids from a counter that only grows, so a key that is removed and re-added gets a new id. -/
+
+/-- **Project layer, texts.**  After any history of `set / remove / query` by key (shorter than
+2³² operations, the range of the `u32` id counter), the database under the project holds exactly
+the final texts: every key's file has the key's final text, two keys never share a file id, and the
+database contains no file that belongs to no key. -/
+theorem c13_project_view (h : List (Op Text)) (hn : h.length ≤ u32Max) :
+    (∀ key, (lookup (projRun h).ids key).bind (lookup (projRun h).db.sources) = Spec.final h key) ∧
+    (∀ k₁ k₂ id, lookup (projRun h).ids k₁ = some id → lookup (projRun h).ids k₂ = some id → k₁ = k₂) ∧
+    (∀ id t, lookup (projRun h).db.sources id = some t →
+      ∃ key, lookup (projRun h).ids key = some id ∧ Spec.final h key = some t) := by
+  have i := pinv_run h hn
+  refine ⟨i.spec, i.inj, ?_⟩
+  intro id t ht
+  obtain ⟨key, hk⟩ := i.orphan id (by simp [ht])
+  refine ⟨key, hk, ?_⟩
+  rw [← i.spec key, hk]
+  exact ht
+
+/-- **Project layer, answers, given the ids.**  The answers of a project after any history are
+those of a brand-new *database* loaded with the same `(file id, text)` pairs in any order.  What a
+brand-new *project* may not reproduce is only the assignment of ids to keys (next two theorems). -/
+theorem c13_project_db_fresh (h : List (Op Text)) (hn : h.length ≤ u32Max)
+    (l : List (Nat × Text)) (hl : (keys l).Nodup)
+    (hm : ∀ id t, (id, t) ∈ l ↔ lookup (projRun h).db.sources id = some t) (k : QKind) (id : Nat) :
+    (query (projRun h).db k id).2 = (query (run (loadFresh l)) k id).2 := by
+  have i := (pinv_run h hn).db
+  have hv := viewSources_listing i
+  rw [(query_of_inv i (fun g => rfl) hv k id).1]
+  have hfin : ∀ g, lookup (projRun h).db.sources g = Spec.final (loadFresh l) g := by
+    intro g
+    rw [final_loadFresh l hl]
+    cases hg : lookup (projRun h).db.sources g with
+    | none =>
+      cases hl' : lookup l g with
+      | none => rfl
+      | some t => have := (hm g t).1 (mem_of_lookup hl'); rw [hg] at this; cases this
+    | some t => exact (lookup_of_mem hl ((hm g t).2 hg)).symm
+  rw [c13_query_spec (loadFresh l) _ (listing_congr hfin hv)]
+  simp [Spec.reads, hfin id]
+
+/-- **A (re-)added key goes last.**  A key without an id — never seen, or removed before — gets an
+id above every id in use, so in the id-sorted `ProjectInputs.files`, and hence in the order of
+cross-file symbol import, its file comes after all others, wherever it was before its removal. -/
+theorem c13_project_readd_moves_last (h : List (Op Text)) (hn : h.length < u32Max) (key : Nat)
+    (t : Text) (hk : lookup (projRun h).ids key = none) :
+    ∃ id, lookup (projSet (projRun h) key t).ids key = some id ∧
+      ∀ k' id', k' ≠ key → lookup (projSet (projRun h) key t).ids k' = some id' → id' < id := by
+  have i := pinv_run h (Nat.le_of_lt hn)
+  refine ⟨(projRun h).nextId, ?_, ?_⟩
+  · simp [projSet, ensureFileId, hk, lookup_insert]
+  · intro k' id' hne hk'
+    have hne' : ¬ key = k' := fun e => hne e.symm
+    simp [projSet, ensureFileId, hk, lookup_insert, hne'] at hk'
+    exact i.bound k' id' hk'
+
+/-- **Counterexample at the Project layer (why the claim is made at the Database layer).**
+Keys 0 and 1 with texts 100 and 101: after `add 0, add 1, remove 0, re-add 0` the final texts are
+those of a fresh load `add 0, add 1`, but key 0 now has id 2 > id 1 of key 1, so the id-sorted list
+that every project-keyed query reads carries the texts in the order `[101, 100]` instead of
+`[100, 101]`.  Any answer that depends on the order of the files (cross-file import is "first
+definition in id order wins") may therefore differ from the fresh project's. -/
+theorem c13_project_order_counterexample :
+    let h : List (Op Nat) := [.set 0 100, .set 1 101, .remove 0, .set 0 100]
+    let fresh : List (Op Nat) := loadFresh [(0, 100), (1, 101)]
+    (∀ key, Spec.final h key = Spec.final fresh key) ∧
+    viewSources (projRun h).db = [(1, 101), (2, 100)] ∧
+    viewSources (projRun fresh).db = [(0, 100), (1, 101)] ∧
+    (query (projRun h).db .analyze 2).2 = .ok (.proj .analyze [(1, 101), (2, 100)] 2) ∧
+    (query (projRun fresh).db .analyze 0).2 = .ok (.proj .analyze [(0, 100), (1, 101)] 0) := by
+  refine ⟨?_, by decide, by decide, by decide, by decide⟩
+  intro key
+  by_cases h0 : key = 0
+  · subst h0; decide
+  · by_cases h1 : key = 1
+    · subst h1; decide
+    · simp [Spec.final, Spec.step, loadFresh, h0, h1]
+
 /-! ### Non-vacuity -/
 
 /-- A history with an edit, a removal, a re-addition and interleaved queries; its final texts,
@@ -185,5 +266,12 @@ example :
 new database creates an empty `ProjectInputs` (and does not panic). -/
 example : (query (Db.new : Db Nat) .analyze 0).1.project = some [] ∧
     (query (Db.new : Db Nat) .analyze 0).2 = .ok (.dflt .analyze) := by decide
+
+/-- `c13_project_readd_moves_last` is not vacuous: key 0 was removed, has no id, and is re-added. -/
+example :
+    let h : List (Op Nat) := [.set 0 100, .set 1 101, .remove 0]
+    lookup (projRun h).ids 0 = none ∧ lookup (projSet (projRun h) 0 100).ids 0 = some 2 ∧
+      lookup (projSet (projRun h) 0 100).ids 1 = some 1 := by
+  decide
 
 end TrustVerif.C13
